@@ -16,7 +16,7 @@ import (
 )
 
 var classes = []string{"inorder", "permuted", "dup", "foreign", "late", "never", "mixed", "close", "badframe", "garbage",
-	"refuse", "blackhole1", "blackholeK", "queuefull", "dupburst", "giveup", "crowd", "sequel"}
+	"refuse", "blackhole1", "blackholeK", "queuefull", "dupburst", "giveup", "crowd", "sequel", "notify"}
 
 func pickInt(r *rand.Rand, xs ...int) int { return xs[r.Intn(len(xs))] }
 
@@ -62,6 +62,19 @@ func plan(seed int64, classes []string, per int, maxK int) []*scenario {
 			sc.K -= sc.K % 2
 			sc.Sequel = sc.K / 2
 			sc.ReadMs = 100 // the framework's default ClientReadTimeout
+		case "notify": // callers 1..K/2 are answered, then the peer sends the close notification (reconnect push); once the client
+			// has received it each caller makes a second call (caller c+K/2) after 0..1200 ms: before and after the old
+			// connection is closed gracefully (500 ms tick); the peer answers everything on whatever connection it arrives
+			if sc.K < 2 {
+				sc.K = 2
+			}
+			if sc.K > 16 {
+				sc.K = 16
+			}
+			sc.K -= sc.K % 2
+			sc.Sequel = sc.K / 2
+			sc.NotifyGate = true
+			sc.CfgTO = 300
 		case "refuse":
 			sc.Listen = "refuse"
 			sc.K = pickInt(r, 1, 4, 8)
@@ -146,6 +159,11 @@ func plan(seed int64, classes []string, per int, maxK int) []*scenario {
 				}
 			case "giveup":
 				rs = []reply{{sc.Eff[c] + 15, "own"}}
+			case "notify":
+				rs = []reply{{r.Intn(4), "own"}}
+				if c == 1 {
+					rs = append(rs, reply{8 + r.Intn(10), "notify"})
+				}
 			case "sequel":
 				if c <= sc.Sequel {
 					rs = []reply{{0, "own"}, {0, "own"}}
